@@ -1285,8 +1285,10 @@ func (g *FnGen) checkReturnAsserts() {
 		}
 		// result names denote the RETURNED values here, also when a local of the same name (err,
 		// or a named result variable) is in scope
-		for _, n := range []string{"err", "result"} {
-			delete(env, n)
+		if sig.Results().Len() > 0 {
+			for _, n := range []string{"err", "result"} {
+				delete(env, n)
+			}
 		}
 		for i := 0; i < sig.Results().Len(); i++ {
 			delete(env, fmt.Sprintf("result%d", i))
